@@ -6,6 +6,8 @@ mod impl_serde;
 mod iter;
 #[cfg(feature = "rayon")]
 mod par_iter;
+#[cfg(brood_verif)]
+mod verif;
 
 #[cfg(feature = "serde")]
 pub(crate) use impl_serde::DeserializeArchetypes;
